@@ -54,6 +54,18 @@ class ProbeNodeVec(ProbeNode):
     OUT_SHAPE = (2,)
 
 
+class ProbeNodeRng(ProbeNode):
+    """ProbeNode that also *consumes and advances* its rng, as a stochastic policy does: the returned step state carries split(rng)[0] and the
+    value depends on bits drawn from split(rng)[1]."""
+
+    def step(self, step_state: StepState) -> Tuple[StepState, POutput]:
+        new_rng, sub = jax.random.split(step_state.rng)
+        noise = jax.random.bits(sub, (), jnp.uint32).astype(jnp.float32) * jnp.float32(2.0 ** -32)
+        ss, out = super().step(step_state)
+        x = ss.state.x + noise
+        return ss.replace(rng=new_rng, state=PState(x=x)), POutput(y=out.y + noise)
+
+
 ORACLE_RETURNS = {}  # callback name -> value to return (set by replays so that the real run sees the solver model's oracle results)
 CALL_LOG = []  # host-side trace written by the oracle callbacks when the real code is run concretely (replays)
 
@@ -99,6 +111,23 @@ class OracleNode(BaseNode):
         # io_callback: a genuine side effect (XLA neither de-duplicates nor drops it), like a user's host-side counter
         res = io_callback(cb, jax.ShapeDtypeStruct((2,), jnp.float32), *args)
         return step_state.replace(state=PState(x=res[0])), POutput(y=res[1])
+
+
+class OracleNodeRng(OracleNode):
+    """OracleNode that also advances its rng (returns split(rng)[0]) and reports the rng it was handed as the *last* callback argument,
+    so that harnesses can decide which key every executed step saw."""
+
+    def step(self, step_state: StepState) -> Tuple[StepState, POutput]:
+        args = [step_state.seq, step_state.ts, step_state.state.x, step_state.eps]
+        for name in sorted(step_state.inputs.keys()):
+            inp = step_state.inputs[name]
+            args += [inp.seq, inp.ts_sent, inp.ts_recv, inp.data.y]
+        args.append(step_state.rng)
+        cb = oracle_callback(f"step_{self.name}", (2,), jnp.float32)
+        from jax.experimental import io_callback
+
+        res = io_callback(cb, jax.ShapeDtypeStruct((2,), jnp.float32), *args)
+        return step_state.replace(rng=jax.random.split(step_state.rng)[0], state=PState(x=res[0])), POutput(y=res[1])
 
 
 def two_node_graph(rate1=10, rate2=20, window12=2, window21=1, trainable=False, ts_max=0.5, num_episodes=1,
